@@ -108,7 +108,76 @@ def check(chk, scs, outs):
     compare(chk, sc, outs, datas, t2, g2, base, span, tag + ":method-forms", desc + " [hpf_trend method / hpf_gap function]", payload)
 
 
+def check_lonf(chk, scs, outs, span=None):
+    """lonf against the exact optimum of Lonf.tla (one or two variants; optional estimation span = the sample the filter is run on)."""
+    from fractions import Fraction
+    base = BASE()
+    sc = scs[0]
+    n = len(sc["data"])
+    payload = {"kind": "lonf", "scs": [_plain(s) for s in scs]}
+    tag = "lonf:%dv:order%d" % (len(scs), sc["ord"])
+    desc = "lonf(data=%s, order=%d, smooth=%d)" % ([_plain(s["data"]) for s in scs], sc["ord"], sc["lam"])
+    data = np.array([[float(v) for v in s["data"]] for s in scs], dtype=float).T
+    x = ir.Series(start=base, values=data.copy())
+    try:
+        trend, gap = ir.lonf(x, int(sc["ord"]), float(sc["lam"]))
+    except Exception as ex:
+        chk.mismatch(tag + ":raised:" + type(ex).__name__, desc + ": raised %r" % (ex,), payload)
+        return
+    if not np.array_equal(np.asarray(x.data), data):
+        chk.mismatch(tag + ":input-modified", desc + ": the input series was modified", payload)
+        return
+    for what, y in (("trend", trend), ("gap", gap)):
+        if y.shape != (n, len(scs)) or y.start != base:
+            chk.mismatch(tag + ":shape", desc + ": %s has shape %r starting %r; the input has %d periods and %d variant(s)" % (what, y.shape, y.start, n, len(scs)), payload)
+            return
+    td, gd = np.asarray(trend.data, dtype=float), np.asarray(gap.data, dtype=float)
+    for v, out in enumerate(outs):
+        for t in range(n):
+            e = float(Fraction(out["sol"]["xnum"][t], out["sol"]["den"]))
+            if not abs(td[t, v] + gd[t, v] - data[t, v]) <= 1e-9 * max(1.0, abs(data[t, v])):
+                chk.mismatch(tag + ":trend+gap", desc + ": trend + gap is %r in period %d variant %d, data %r" % (td[t, v] + gd[t, v], t, v, data[t, v]), payload)
+                return
+            if not abs(td[t, v] - e) <= 1e-6 * max(1.0, abs(e)):
+                chk.mismatch(tag + ":trend", desc + ": trend[%d] variant %d is %r, the exact minimiser (optimality conditions of the l1 trend filter) is %r" % (t, v, td[t, v], e), payload)
+                return
+
+
+def run_lonf(chk):
+    dump = chk.scratch.file("lonf.dump")
+    r = tlc.must_pass(tlc.run("LonfMC", "LonfMC.thorough.cfg" if chk.tier == "thorough" else "LonfMC.cfg", chk.scratch, dump=dump, workers=8, timeout=1800), "LonfMC")
+    chk.add_tlc(r, "LonfMC")
+    items = []
+    for st in tlaval.parse_dump(dump, want=lambda b: "done = TRUE" in b):
+        if not (st["out"]["exists"] and st["out"]["unique"]):
+            raise MachineryError("LonfMC: law false in dump")
+        items.append((st["sc"], st["out"]))
+    os.remove(dump)
+    # the same (order, length) with different smoothing weights one after another, then again in reverse
+    items.sort(key=lambda so: (so[0]["ord"], len(so[0]["data"]), repr(_plain(so[0]["data"])), so[0]["lam"]))
+    n = 0
+    for sc, out in items + items[::-1]:
+        check_lonf(chk, [sc], [out])
+        n += 1
+    groups = {}
+    for sc, out in items:
+        groups.setdefault((sc["ord"], len(sc["data"]), sc["lam"]), []).append((sc, out))
+    pairs = 0
+    for key, lst in sorted(groups.items()):
+        if len(lst) >= 2:
+            check_lonf(chk, [lst[0][0], lst[1][0]], [lst[0][1], lst[1][1]])
+            pairs += 1
+    if not n or not pairs:
+        raise MachineryError("LonfMC: no scenario or no two-variant pair")
+    chk.replayed += n + pairs
+    chk.notes["lonf_scenarios"] = n
+    chk.notes["lonf_two_variant_pairs"] = pairs
+    chk.sample({"lonf": _plain(items[5][0]), "spec_trend_num": _plain(items[5][1]["sol"]["xnum"]), "spec_trend_den": items[5][1]["sol"]["den"],
+                "consistent_sign_patterns": items[5][1]["npatterns"]})
+
+
 def run(chk):
+    run_lonf(chk)
     dump = chk.scratch.file("hp.dump")
     r = tlc.must_pass(tlc.run("HpMC", "HpMC.thorough.cfg" if chk.tier == "thorough" else "HpMC.cfg", chk.scratch, dump=dump, timeout=1800), "HpMC")
     chk.add_tlc(r, "HpMC")
@@ -150,7 +219,7 @@ def run(chk):
                 "before, after, interior} x change constraint in {none, interior, last, after, first} x output span in {default, inside, beyond both, "
                 "beyond end, before start} x log, limited to KKT systems of dimension <= 7 (32-bit TLC integers); plus pairs stacked as two variants; "
                 "a case is one scenario")
-    chk.assumptions = ["lonf (l1 trend filter) is not covered: its optimum is not the solution of a linear system and could not be brought into the exact integer framework in the time available",
+    chk.assumptions = ["lonf: complete data only (the implementation has no treatment of missing values), orders 1 and 2, 3-6 periods, comparison at 1e-6 (QP solver daqp trusted)",
                        "numpy.linalg.solve is trusted; comparison tolerance 1e-8 relative"]
 
 
